@@ -126,9 +126,9 @@ func cmdCheck(args []string) int {
 		seed, _ = strconv.Atoi(s)
 	}
 	if *timeout == 0 {
-		*timeout = 150
+		*timeout = 200
 		if *tier == "thorough" {
-			*timeout = 300
+			*timeout = 400
 		}
 	}
 	t0 := time.Now()
